@@ -111,7 +111,8 @@ FAMILY_AFFINITY = {
 
 PRECISION_TWIN_FAMS = ("gelu", "hardswish", "layer_norm", "rms_norm")
 FAMILY_AFFINITY_2 = {"gen:rms_norm": "ort:rms_normalization,softmax", "gen:fold_chain": None, "gen:user_rules": "user:commute"}
-FAMILY_AFFINITY_3 = {"gen:opset_twins": [("optimize", {"api": "fold_pass"}), ("optimize", {"api": "ir"}), ("optimize", {"api": "proto"})],
+FAMILY_AFFINITY_3 = {"gen:random_ops": [("optimize", {"api": "fold_pass"}), ("optimize", {"api": "proto"}), ("optimize", {"api": "fold"})],
+                     "gen:opset_twins": [("optimize", {"api": "fold_pass"}), ("optimize", {"api": "ir"}), ("optimize", {"api": "proto"})],
                      "gen:local_functions": [("optimize", {"api": "inline"}), ("optimize", {"api": "proto"}), ("optimize", {"api": "ir"})],
                      "gen:user_rules": [("rewrite", {"rules": "user:functions", "api": "apply"}), ("rewrite", {"rules": "user:all", "api": "ir"}),
                                         ("rewrite", {"rules": "user:bad_pattern", "api": "apply"})]}
